@@ -645,4 +645,107 @@ example : InScope { name := "d", cls := "QDense", weights := [(24, some 1), (4, 
 example : layerBits {} { name := "d", cls := "QDense", weights := [(24, some 1), (4, some 4)], outElems := 4,
                          actBits := some 3 } = 24 * 1 + 4 * 4 + 3 * 4 := by decide
 
+/-! ### 7b. the size of a trial counts the tensors of the TRIAL model — on a USED object, after
+    `get_reference`, for layers that keep the name of a reference layer (strengthening round V20)
+
+`FFBM` (`Model/Forgiving.lean`) is the `ForgivingFactorBits` object with its size configuration, the
+scalar attributes and the cached statistics (`reference_size_dict`, `trial_size_dict`).  The
+theorems quantify over ALL object states, hence over every history of public calls. -/
+
+/-- `get_trial(model)` on an object in ANY state (reference statistics present or not, earlier
+    trials, stress re-assigned): the returned size is Σ elements × bits over the tensors of THIS
+    model, `trial_size_dict` holds for every layer its own tensors' numbers, and nothing of the
+    reference is touched. -/
+theorem C20_trial_size_any_state {α : Type} (ofInt : Int → α) (o : FFBM α)
+    (hc : o.cfg.config = [("default", ["parameters", "activations"])])
+    (layers : List SzLayer) (h : ∀ L ∈ layers, InScope L) :
+    ∃ s o', getTrialM ofInt o layers = some (ofInt s.total, o') ∧
+      s.total = (layers.map (layerBits o.cfg)).sum ∧
+      s.rows = layers.map (rowSpec o.cfg) ∧
+      s.total = s.pSize + s.aSize ∧
+      o'.trialStats = some s ∧ o'.base.trialSize = some (ofInt s.total) ∧
+      o'.refStats = o.refStats ∧ o'.base.referenceSize = o.base.referenceSize ∧ o'.cfg = o.cfg := by
+  obtain ⟨r, hr, hrows, htot, hpa⟩ := computeModelSize_rows o.cfg hc layers h
+  refine ⟨r, { o with base := { o.base with trialSize := some (ofInt r.total) }, trialStats := some r },
+    ?_, htot, hrows, hpa, rfl, rfl, rfl, rfl, rfl⟩
+  rw [getTrialM_eq, hr]
+  rfl
+
+/-- the same after an arbitrary HISTORY of public calls (`get_reference` of any models, `get_trial`
+    of any models, `stress` re-assigned) on an object created with size configuration `o.cfg` -/
+theorem C20_trial_size_after_history {α : Type} (ofInt : Int → α) (mul : α → α → α) (o : FFBM α)
+    (evs : List (MEv α))
+    (hc : o.cfg.config = [("default", ["parameters", "activations"])])
+    (layers : List SzLayer) (h : ∀ L ∈ layers, InScope L) :
+    ∃ s o', getTrialM ofInt (stateM ofInt mul o evs) layers = some (ofInt s.total, o') ∧
+      s.total = (layers.map (layerBits o.cfg)).sum ∧
+      s.rows = layers.map (rowSpec o.cfg) ∧
+      o'.trialStats = some s := by
+  have hcfg := stateM_cfg ofInt mul evs o
+  obtain ⟨s, o', h1, h2, h3, _, h5, _⟩ :=
+    C20_trial_size_any_state ofInt (stateM ofInt mul o evs) (by rw [hcfg]; exact hc) layers h
+  rw [hcfg] at h2 h3
+  exact ⟨s, o', h1, h2, h3, h5⟩
+
+/-- the k-th use equals a fresh twin, for EVERY size configuration and every layer class
+    (BatchNormalization, InputLayer, uncounted classes included): two objects with the same size
+    configuration — whatever their histories — measure one model alike, total and rows. -/
+theorem C20_trial_size_fresh_twin {α : Type} (ofInt : Int → α) (o₁ o₂ : FFBM α) (hc : o₁.cfg = o₂.cfg)
+    (layers : List SzLayer) :
+    (getTrialM ofInt o₁ layers).map (·.1) = (getTrialM ofInt o₂ layers).map (·.1) ∧
+    (getTrialM ofInt o₁ layers).map (fun r => r.2.trialStats.map (·.rows)) =
+      (getTrialM ofInt o₂ layers).map (fun r => r.2.trialStats.map (·.rows)) := by
+  rw [getTrialM_eq, getTrialM_eq, hc]
+  cases computeModelSize o₂.cfg layers <;> exact ⟨rfl, rfl⟩
+
+/-- `get_reference` on a fresh object keeps the rows of the REFERENCE model and returns size × stress;
+    a later `get_trial` leaves them alone (`C20_trial_size_any_state`) -/
+theorem C20_reference_stats_kept {α : Type} (ofInt : Int → α) (mul : α → α → α) (o : FFBM α)
+    (hf : o.base.referenceSize = none) (layers : List SzLayer) (s : SizeOut)
+    (hs : computeModelSize o.cfg layers = some s) :
+    ∃ o', getReferenceM ofInt mul o layers = some (mul (ofInt s.total) o.base.stress, o') ∧
+      o'.refStats = some s ∧ o'.base.referenceSize = some (mul (ofInt s.total) o.base.stress) ∧
+      o'.cfg = o.cfg := by
+  refine ⟨{ o with base := { o.base with referenceSize := some (mul (ofInt s.total) o.base.stress) },
+                     refStats := some s }, ?_, rfl, rfl, rfl⟩
+  unfold getReferenceM getReference
+  simp [hf, hs]
+
+/-- What filter tuning does to an UNQUANTIZED layer downstream of a scaled one (dense chain, Keras
+    shape inference): its parameter row is `ref_bits × (inputs × units [+ units])` with the inputs
+    of the TRIAL, so it is strictly larger when the layer before it was widened and strictly smaller
+    when it was narrowed — never the reference's number. -/
+theorem C20_downstream_unquantized_row_follows_input (c : SzCfg) (d : DenseSpec) (hq : d.q = none)
+    (hr : 0 < c.refBits) (hu : 0 < d.units) (n n' : Nat) (hn : n < n') :
+    paramSize c (denseLayer n d) =
+        c.refBits * ((n * d.units : Nat) : Int) + (if d.useBias then c.refBits * (d.units : Int) else 0) ∧
+      paramSize c (denseLayer n d) < paramSize c (denseLayer n' d) := by
+  refine ⟨paramSize_denseLayer_plain c n d hq, ?_⟩
+  rw [paramSize_denseLayer_plain c n d hq, paramSize_denseLayer_plain c n' d hq]
+  have h1 : ((n * d.units : Nat) : Int) < ((n' * d.units : Nat) : Int) := by
+    exact_mod_cast Nat.mul_lt_mul_of_pos_right hn hu
+  have h2 := mul_lt_mul_of_pos_left h1 hr
+  linarith
+
+/-- the failing input of seed C20-12 as a regression: `Input(8) → d0(8) → d1(6) → out(3)`, reference
+    measured first, then the trial in which `d0` was quantized (binary kernel, 4-bit bias) and
+    halved: the row of the untouched `d1` is 8 × (4 × 6 + 6) = 240 bits (the reference's is 432),
+    the trial total is the sum of the trial's rows, and the reference statistics stay. -/
+theorem C20_downstream_row_regression :
+    let c : SzCfg := {}
+    let ref := denseChain 8 [{ name := "d0", units := 8, actName := "relu" },
+                             { name := "d1", units := 6, actName := "relu" }, { name := "out", units := 3 }]
+    let trial := denseChain 8 [{ name := "d0", units := 4, q := some (some 1, some 4), actBits := some 1 },
+                               { name := "d1", units := 6, actName := "relu" }, { name := "out", units := 3 }]
+    let o : FFBM Int := { cfg := c, base := { stress := 1 } }
+    (runM id (· * ·) o [.ref ref, .trial trial]).map (fun r => (r.1, r.2.trialStats.map fun s =>
+        s.rows.map fun w => (w.name, w.parameters, w.activations))) =
+      [(some 1288, none),
+       (some (32 + 16 + 4 + 240 + 48 + 168), some [("d0", 32 + 16, 4), ("d1", 240, 48), ("out", 168, 0)])] := by
+  decide
+
+example : InScope (denseLayer 4 { name := "d1", units := 6, actName := "relu" }) := by
+  refine ⟨Or.inl (by decide), ?_⟩
+  rintro ⟨h, _⟩; revert h; decide
+
 end QKV.Props.C20
